@@ -693,18 +693,41 @@ func (st *Stack) compactRange(first, last int, expiration *LogExpirationConfig) 
 		rmTable = ""
 	}
 
-	var names []string
-	for i := 0; i < first; i++ {
-		names = append(names, st.stack[i].name)
+	// While the list was unlocked, other processes may have added
+	// tables or compacted other ranges. Our range cannot have changed
+	// (we hold its locks), so replace it in the list as it is now.
+	curNames, err := st.readNames()
+	if err != nil {
+		if !emptyTable {
+			os.Remove(destTable)
+		}
+		return false, err
+	}
+	pos := -1
+	for i, nm := range curNames {
+		if nm == st.stack[first].name {
+			pos = i
+			break
+		}
+	}
+	for i := first; pos >= 0 && i <= last; i++ {
+		if j := pos + i - first; j >= len(curNames) || curNames[j] != st.stack[i].name {
+			pos = -1
+		}
+	}
+	if pos < 0 {
+		if !emptyTable {
+			os.Remove(destTable)
+		}
+		return false, nil
 	}
 
+	var names []string
+	names = append(names, curNames[:pos]...)
 	if !emptyTable {
 		names = append(names, fn)
 	}
-
-	for i := last + 1; i < len(st.stack); i++ {
-		names = append(names, st.stack[i].name)
-	}
+	names = append(names, curNames[pos+last-first+1:]...)
 
 	if _, err := lockFile.Write([]byte(strings.Join(names, "\n"))); err != nil {
 		os.Remove(destTable)
